@@ -64,6 +64,11 @@ def pool():
         "FIND " + hx("language:xx"), "FIND " + hx("language:zz"),
         "LOGMSG 0 " + hx("all %s"), "LOGMSG 10000 " + hx("debug %n"), "LOGMSG 20000 " + hx("info 100%"),
         "LOGMSG 30000 " + hx("warn %d%d%d"), "LOGMSG 40000 " + hx("error %%"), "LOGMSG 50000 " + hx("fatal %s%n"),
+    ] + [
+        # a ladder of message lengths around the sizes a formatting buffer would grow by (a message exactly as long as
+        # such a buffer, after a longer one that was delivered or filtered, must still arrive whole)
+        "LOGMSG %d %s" % (lv, hx(("L%03d-" % n + "x" * 400)[:n])) for lv, n in
+        [(10000, 86), (40000, 63), (40000, 64), (30000, 65), (40000, 127), (50000, 128), (10000, 129), (40000, 192), (40000, 256), (30000, 255)]
     ]
 
 
